@@ -6,7 +6,7 @@ import os, re, shutil, subprocess, tempfile, time
 ROOT = os.path.dirname(os.path.dirname(os.path.abspath(__file__)))
 REPO = os.environ.get('VERIF_REPO', '/repo')
 SCRATCH_BASE = os.environ.get('VERIF_SCRATCH', '/var/tmp')
-UNITS = ('timedelta', 'date', 'iters', 'time', 'datetime', 'round', 'week', 'zoned', 'fmt', 'tz', 'parsed')
+UNITS = ('timedelta', 'date', 'iters', 'time', 'datetime', 'round', 'week', 'zoned', 'fmt', 'tz', 'parsed', 'strings')
 
 
 def run(unit, seed=1, timeout=600):
